@@ -27,7 +27,7 @@ for p in ["C02","C03","C18","C19","C20"]:
 m = {
  "version":1,
  "setup_cmd":"cd /verif && ./setup.sh",
- "hooks":{"guard":"jbonsai_verif","enable":"RUSTFLAGS='--cfg jbonsai_verif' (set by /verif/check and /verif/sim/.cargo/config.toml)","baseline_off_cmd":"cd /repo && cargo nextest run --workspace --no-fail-fast --test-threads 8 --offline || cargo test --workspace --no-fail-fast --offline --lib","source_commits":["930c266"],"add_only":True},
+ "hooks":{"guard":"jbonsai_verif","enable":"RUSTFLAGS='--cfg jbonsai_verif' (set by /verif/check and /verif/sim/.cargo/config.toml)","baseline_off_cmd":"cd /repo && cargo nextest run --workspace --no-fail-fast --test-threads 8 --offline || cargo test --workspace --no-fail-fast --offline --lib","source_commits":["930c266","fcea175","f7e0736"],"add_only":True},
  "engines":[{"name":"jbsim","path":"/verif/sim/jbsim","serves_properties":sorted(claimed),"kind_free_text":"deterministic simulator: seeded op histories / schedules / fault sequences against real jbonsai objects with reference models; replay files; ddmin minimiser"}],
  "checks":checks,
  "not_applicable":[{"property_id":k,"reason":v} for k,v in sorted({**na,**pending}.items())],
